@@ -444,6 +444,7 @@ pub fn check_ceremony(ctx: &mut Ctx, psl: &Psl, case: &Case) -> Result<(), Strin
 }
 
 pub fn run(ctx: &mut Ctx) {
+    let fs = ctx.first_shard();
     ctx.rule = "pairs are constructed (host class x RP-ID class relative to the host x origin kind x localhost flag x provider); sweep = every rule of the shipped list as RP ID against hosts a.<rule> and <rule> (A-label form; Unicode form on the Android path). Non-trivial = RP ID present and an unaligned character suffix or public suffix of the host, or the pair was accepted, or the RP ID is a list rule; distinct by the concrete case.".into();
     ctx.assumptions = vec![
         "only the 'accepted => conditions' direction is asserted; rejections of pairs the statement would allow are measured (over_rejections)".into(),
@@ -468,8 +469,8 @@ pub fn run(ctx: &mut Ctx) {
         idn_unicode: psl.rules.iter().filter(|r| r.name.contains("xn--")).map(|r| inst(r, &r.unicode)).collect(),
     };
 
-    // ---- stage 1: complete sweep over the list rules
-    'sweep: for r in &psl.rules {
+    // ---- stage 1: complete sweep over the list rules (first shard only)
+    'sweep: for r in psl.rules.iter().filter(|_| fs) {
         let a = inst(r, &r.name);
         let u = inst(r, &r.unicode);
         let mut cases = vec![
@@ -495,7 +496,7 @@ pub fn run(ctx: &mut Ctx) {
     ctx.note("sweep_rules", json!(psl.rules.len()));
 
     // ---- stage 2: generated pairs
-    let n = ctx.tier.pick(60_000u32, 1_500_000u32);
+    let n = ctx.tier.pick(60_000u32, 24_000_000u32);
     let (p, q) = (&psl, &pools);
     match search(ctx, 1, n, pair_strategy(), |ctx, g| check_pair(ctx, p, &materialize(g, p, q))) {
         Search::Pass => {}
@@ -504,7 +505,7 @@ pub fn run(ctx: &mut Ctx) {
 
     // ---- stage 3: all label / character cuts of a set of interesting hosts (exhaustive per host)
     let hosts: Vec<String> = FIXED_HOSTS.iter().map(|s| s.to_string()).chain(["evil-example.com", "my-1password.com", "xn--85x722f.com", "a_b.example.org", "login.evil-example.co.uk", "xlocalhost", "localhost", "sub.localhost"].iter().map(|s| s.to_string())).collect();
-    'cuts: for h in &hosts {
+    'cuts: for h in hosts.iter().filter(|_| fs) {
         for cut in 0..=h.len() {
             for (scheme, allow) in [("https", false), ("https", true), ("http", true)] {
                 for android in [false, true] {
@@ -525,7 +526,7 @@ pub fn run(ctx: &mut Ctx) {
     }
 
     // ---- stage 4: end-to-end ceremonies
-    let n = ctx.tier.pick(400u32, 8_000u32);
+    let n = ctx.tier.pick(400u32, 200_000u32);
     match search(ctx, 2, n, pair_strategy(), |ctx, g| check_ceremony(ctx, p, &materialize(g, p, q))) {
         Search::Pass => {}
         Search::Fail(g, msg) => ctx.violation("ceremony", json!(materialize(&g, &psl, &pools)), &msg),
@@ -533,6 +534,9 @@ pub fn run(ctx: &mut Ctx) {
     // fixed end-to-end cases around the known defect classes
     for (u, rp) in [("https://evilexample.com", Some("example.com")), ("https://evil-example.com", Some("example.com")), ("https://foo.xn--55qx5d.cn", Some("xn--55qx5d.cn")), ("https://192.168.1.10", None), ("https://www.example.com", Some("example.com")), ("http://localhost:8080", None), ("https://example.co.uk", Some("co.uk"))] {
         for allow in [false, true] {
+            if !ctx.first_shard() {
+                continue;
+            }
             let c = Case { url: Some(u.to_string()), android_host: None, rp: rp.map(|s| s.to_string()), allow_localhost: allow, provider: ProviderKind::Default };
             if let Err(e) = check_ceremony(ctx, &psl, &c) {
                 ctx.violation("ceremony-fixed", json!(c), &e);
